@@ -59,6 +59,10 @@ pub fn rules() -> Vec<Value> {
         json!({"in": [{"var": "n"}, [0, 1, 2.0, 3, 4, 5, 6, 7.0, 8, 9, "2", [2]]]}),
         json!({"var": ["xs.-1", {"var": ["b.c", {"var": "a"}]}]}),
         json!({"reduce": [[1, 2, 3, 4, 5, 6], {"merge": [{"var": "accumulator"}, [{"var": "current"}]]}, {"var": "xs"}]}),
+        // indexing into strings (character tables), hits and misses, on ASCII and non-ASCII data
+        json!({"var": 0}), json!({"var": [7, "none"]}), json!({"var": -1}), json!({"var": "a.1"}), json!({"var": ["a.9", {"var": "a.0"}]}),
+        json!({"missing": [9, 0, "a.2", "a.-9"]}), json!({"all": [{"var": "a"}, {"!==": [{"var": ""}, "x"]}]}), json!({"substr": [{"var": "a"}, -2]}),
+        json!({"cat": [{"var": "a.0"}, {"var": "a.-1"}, {"var": 1}]}), json!({"in": [{"var": "a.1"}, {"var": "a"}]}),
     ]
 }
 
@@ -67,6 +71,8 @@ pub fn datas() -> Vec<Value> {
         json!({"a": "xyz", "b": {"c": "deep"}, "xs": [1, 2, 3], "n": 2}),
         json!({"a": "7", "b": null, "xs": [3, 0], "n": 7.0}),
         json!({"a": "", "xs": [], "n": "1"}),
+        json!({"a": "déjà", "b": {"c": "ñu"}, "xs": ["ü", "é"], "n": -0.5}),
+        json!("añb"),
     ]
 }
 
